@@ -214,6 +214,10 @@ def case_strategy(draw, tier):
         argv = list(prog.argv) + draw(options.codegen_options(indirect=True))
         choices = [list(bytes(draw(st.lists(st.sampled_from(list(b"abxcdqef")), min_size=2, max_size=6)))) for _ in range(4)]
         return prog, argv, [bytes(c) for c in choices]
+    if draw(st.integers(0, 7)) == 0:
+        prog, datas = draw(gen.break_loop_program())
+        argv = list(prog.argv) + draw(options.codegen_options(indirect=None))
+        return prog, argv, datas[:8]
     mode = draw(st.sampled_from(["plain", "plain", "yield", "eof", "both"]))
     cfg = gen.GenConfig(max_depth=2, max_stmts=4, allow_yield=mode in ("yield", "both"), allow_end=mode in ("eof", "both"),
                         kinds={"yield": 2 if mode in ("yield", "both") else 0})
